@@ -438,6 +438,7 @@ def adjust_p(pvalues, adjustment='holm-bonferroni'):
     -------
     array of adjusted p-values
     """
+    pvalues = np.asarray(pvalues, dtype=float)
     # get number of tests / p-values
     n = len(pvalues)
     # calculate adjusted p-values
